@@ -74,6 +74,18 @@ Section AdaptM.
          g_T := g_T p; g_target := g_target p; g_start := g_start p; g_decayc := g_decayc p |}
     else p.
 
+  (** ** Sivia-Skilling with a full covariance: cov *= alpha unless alpha * cov.max() exceeds max_std**2 *)
+  Record ssc := { q_cov : list (list T); q_nacc : Z; q_target : T; q_start : Z; q_cap : option T }.
+  Definition mat_max (A : list (list T)) : T := list_max (concat A).
+  Definition ssc_update (p : ssc) (nsteps : Z) (accepted : bool) : ssc :=
+    let nacc := (q_nacc p + (if accepted then 1 else 0))%Z in
+    let niter := (nsteps - (q_start p - 1) + 1)%Z in
+    let alpha := ss_alpha nacc niter (q_target p) in
+    let mx := alpha * mat_max (q_cov p) in
+    let ok := match q_cap p with None => true | Some cap => nleb mx (cap * cap) end in
+    {| q_cov := if ok then map (map (fun c => c * alpha)) (q_cov p) else q_cov p;
+       q_nacc := nacc; q_target := q_target p; q_start := q_start p; q_cap := q_cap p |}.
+
   (** ** adaptive eigenvector: recursive covariance, N = proposal steps so far *)
   Definition eig_cov_update (N : T) (cov : list (list T)) (mu x : list T) : list (list T) * list T :=
     let dx := map2 nsub x mu in
